@@ -840,6 +840,17 @@ def is_defined_fun(node):
     return node.has_ident() and node.get_ident() in __defined_functions
 
 
+def get_defined_fun_arity(node):
+    """Return the number of arguments of the defined function ``node``.
+
+    Assumes ``is_defined_fun(node)``.
+    """
+    assert is_defined_fun(node)
+    if node.is_leaf():
+        return __defined_functions[node.data][0]
+    return __defined_functions[node.get_ident()][0]
+
+
 def get_defined_fun(node):
     """Return the defined function ``node``, instantiated with the arguments of
     ``node`` if necessary.
